@@ -245,6 +245,11 @@ def check(prog, rep):
     own_rules(prog, rep, methods=["get_events", "get_eventcount", "get_metadata", "buckets", "get_event"])
     window_plumbing(prog, rep)
     stateless(prog, rep)
+    # ... and the Bucket / Datastore methods a query reads through keep nothing between calls and return the storage's answer:
+    # a read remembered by the wrapper hands the same Event objects to the next query, which sees the previous one's annotations
+    from ..rules_wrap import wrapper_rules
+
+    wrapper_rules(prog, rep, parts=("state", "reads"))
     from ..rules_commit import check_no_rollback
     from ..rules_own import copy_protocol
 
@@ -257,6 +262,7 @@ def check(prog, rep):
 
 
 VARIANTS = [
+    ("B Bucket.get remembers its last read", "aw_datastore/datastore.py", "        return self.ds.storage_strategy.get_events(\n            self.bucket_id, limit, starttime, endtime\n        )", "        key = (limit, starttime, endtime)\n        if getattr(self, \"_last\", None) is None or self._last[0] != key:\n            self._last = (key, self.ds.storage_strategy.get_events(self.bucket_id, limit, starttime, endtime))\n        return list(self._last[1])", "WRAP"),
     {"name": "B compiled category rules memoised in a module-level dict", "edits": [(Q, "@q2_function(categorize)\n@q2_typecheck\ndef q2_categorize(events: list, classes: list):\n    classes = [(_cls, Rule(rule_dict)) for _cls, rule_dict in classes]\n", "_rule_cache: dict = {}\n\n\ndef _compile_rule(rule_dict):\n    key = rule_dict.get(\"regex\")\n    if key not in _rule_cache:\n        _rule_cache[key] = Rule(rule_dict)\n    return _rule_cache[key]\n\n\n@q2_function(categorize)\n@q2_typecheck\ndef q2_categorize(events: list, classes: list):\n    classes = [(_cls, _compile_rule(rule_dict)) for _cls, rule_dict in classes]\n")], "expect": "STATELESS"},
     ("B query function inserts", Q, "    return datastore[bucketname].get(starttime=starttime, endtime=endtime)\n", "    evs = datastore[bucketname].get(starttime=starttime, endtime=endtime)\n    if len(evs) > 100000:\n        datastore[bucketname].insert(evs[0])\n    return evs\n", ["NO-WRITE"]),
     ("B query function deletes through the storage", Q, "    _verify_bucket_exists(datastore, bucketname)\n    starttime = iso8601.parse_date(namespace[\"STARTTIME\"])\n    endtime = iso8601.parse_date(namespace[\"ENDTIME\"])\n", "    _verify_bucket_exists(datastore, bucketname)\n    datastore.storage_strategy.delete(bucketname, -1)\n    starttime = iso8601.parse_date(namespace[\"STARTTIME\"])\n    endtime = iso8601.parse_date(namespace[\"ENDTIME\"])\n", "NO-WRITE"),
